@@ -108,6 +108,8 @@ def run_case(scn, ctx):
                 if sealed_once:
                     edited_after_first_seal = True
         target = hist.wpath(scn, scn["target"])
+        if target not in w.history_roots():
+            target = top  # (a create -sf on an empty folder writes nothing: the generator's notion of a root was wrong)
         roots = w.history_roots()
         hist_docs = {r: w.read_history(r) for r in roots if w.under(r, target)}
         target_has_dirhashes = any(d["roothash"] for _, _, d in hist_docs.get(target, []))
